@@ -264,11 +264,31 @@ type run struct {
 	// executor variant
 	exec *execState
 
-	rel      atomic.Uint64
-	hist     []string
-	sits     map[string]bool
-	inconcl  string
-	violated bool
+	rel   atomic.Uint64
+	lastD atomic.Int64 // duration (units) of the base timer created last
+	lc    *lateClock
+	// late delivery of expiries
+	holdPct, holdsLeft int
+	held               *heldExpiry
+	holdBudget         int
+	slack              int64 // unsuspended time that passed between due and delivery, summed
+	lastDueRan         int64 // unsuspended run time at the due instant of the expiry delivered last
+	lastDueAt          int
+	lastHeld           bool
+	hist               []string
+	sits               map[string]bool
+	inconcl            string
+	violated           bool
+}
+
+// heldExpiry is a base timer that fell due but whose value has not reached
+// the re-arm loop yet.
+type heldExpiry struct {
+	dueAt          int
+	dueRan         int64
+	countAtDue     int
+	resumedToZero  bool
+	suspendedAtDue bool
 }
 
 type execState struct {
@@ -346,10 +366,11 @@ func (x *run) wait(what string, cond func() bool) bool {
 func runCase(r *ev.Run, c tcase) {
 	r.Case("case %d kind=%s timeout=%d threshold=%d maxcomp=%d start=%d readers=%v ops=%d", c.Idx, c.Kind, c.Timeout, c.Threshold, c.MaxSusp, c.Start, c.Readers, len(c.Ops))
 	clk := vclock.New(1000)
-	sc := re_clock.NewSuspendableClock(clk, time.Duration(c.MaxSusp)*unit, time.Duration(c.Threshold)*unit)
+	lc := &lateClock{Clock: clk}
+	sc := re_clock.NewSuspendableClock(lc, time.Duration(c.MaxSusp)*unit, time.Duration(c.Threshold)*unit)
 	gb := &gatedBase{calls: map[int]*parked{}}
 	x := &run{
-		r: r, c: c, clk: clk, sc: sc, gb: gb,
+		r: r, c: c, clk: clk, lc: lc, sc: sc, gb: gb,
 		ba:          re_blobstore.NewSuspendingBlobAccess(gb, sc),
 		df:          cas.NewSuspendingDirectoryFetcher(gb, sc),
 		tie:         rand.New(rand.NewPCG(c.TieSeed, 99)),
@@ -358,8 +379,13 @@ func runCase(r *ev.Run, c tcase) {
 	}
 	clk.OnTimer = func(d time.Duration) {
 		if d < 30*time.Minute {
+			x.lastD.Store(int64(d / unit))
 			x.rel.Add(1)
 		}
+	}
+	// Half of the timelines deliver some expiries late.
+	if x.tie.IntN(2) == 0 {
+		x.holdPct, x.holdsLeft = 40, 3
 	}
 	for _, k := range c.Readers {
 		x.rds = append(x.rds, &readerState{kind: k})
@@ -401,7 +427,7 @@ func (x *run) ran() int64 { return x.U - x.startU }
 // checkNotMissed is evaluated before the clock leaves the current instant,
 // when every base timer due now has fired and has been handled.
 func (x *run) checkNotMissed() {
-	if !x.created || x.finished || x.stopped {
+	if !x.created || x.finished || x.stopped || x.held != nil {
 		return
 	}
 	if x.isDone() {
@@ -409,8 +435,8 @@ func (x *run) checkNotMissed() {
 		return
 	}
 	capAt := x.startAt + x.c.Timeout + x.c.MaxSusp
-	if x.ran() >= int64(x.c.Timeout) {
-		x.violation("deadline-missed-by-unsuspended-time", fmt.Sprintf("the command has run %d units unsuspended, timeout %d, and nothing fired before the clock moved on", x.ran(), x.c.Timeout))
+	if x.ran() >= int64(x.c.Timeout)+x.slack {
+		x.violation("deadline-missed-by-unsuspended-time", fmt.Sprintf("the command has run %d units unsuspended, timeout %d (+%d units that passed unsuspended while expiries were delivered late), and nothing fired before the clock moved on", x.ran(), x.c.Timeout, x.slack))
 		x.finished = true
 	} else if x.nowU >= capAt {
 		x.violation("deadline-missed-by-wall-cap", fmt.Sprintf("wall time %d reached start+timeout+maximum compensation = %d and nothing fired", x.nowU, capAt))
@@ -459,6 +485,23 @@ func (x *run) play() {
 				nextTimer = x.nowU
 			}
 		}
+		if x.held != nil && (x.finished || x.stopped) {
+			// Decided by cancellation/Stop while an expiry was still
+			// undelivered: the late expiry no longer matters.
+			x.held = nil
+			x.lc.deliver()
+		}
+		if x.held != nil {
+			if x.holdBudget <= 0 || (nextEv == 1<<30 && nextTimer == 1<<30) {
+				// Let some more time pass, then hand the expiry over.
+				if x.tie.IntN(2) == 0 {
+					x.advanceTo(min(x.nowU+1+x.tie.IntN(3), nextEv, nextTimer))
+				}
+				x.deliverHeld()
+				continue
+			}
+			x.holdBudget--
+		}
 		if nextEv == 1<<30 && nextTimer == 1<<30 {
 			if x.created && !x.finished && !x.stopped {
 				x.violation("no-base-timer-pending-and-not-fired", "the object under test is neither done nor waiting for any base timer")
@@ -495,7 +538,7 @@ func (x *run) play() {
 			}
 			wg.Wait()
 			for k, d := range deltas {
-				x.count += d
+				x.addCount(d)
 				x.logf("reader %d %s (%s) concurrently", ops[i+k].Reader, ops[i+k].What, x.rds[ops[i+k].Reader].kind)
 			}
 			i = j
@@ -505,7 +548,7 @@ func (x *run) play() {
 		i++
 		switch o.What {
 		case "begin", "end":
-			x.count += x.readerOp(o)
+			x.addCount(x.readerOp(o))
 			x.logf("reader %d %s (%s)", o.Reader, o.What, x.rds[o.Reader].kind)
 		case "create":
 			x.create()
@@ -682,6 +725,9 @@ func (x *run) create() {
 			x.violation("suspendable-clock-now-differs-from-base", fmt.Sprintf("%v vs %v", now, x.at(x.nowU)))
 		}
 	case "timer":
+		// The first base timer NewTimer creates is the wall-clock cap; it
+		// is always delivered on time (the cap oracle is exact).
+		x.lc.noHold.Store(x.lc.seq.Load() + 1)
 		x.timer, x.timerCh = x.sc.NewTimer(d)
 	case "executor":
 		if !x.startExecutor() {
@@ -693,26 +739,102 @@ func (x *run) create() {
 	x.wait("the first base timer", func() bool { return x.relevantCreated() >= before+2 || x.isDone() })
 }
 
+func (x *run) addCount(d int) {
+	prev := x.count
+	x.count += d
+	if x.held != nil && prev > 0 && x.count == 0 {
+		x.held.resumedToZero = true
+	}
+}
+
 func (x *run) fire() {
-	suspended := x.count > 0
 	before := x.relevantCreated()
 	pendingBefore := x.clk.Pending()
+	hold := x.held == nil && x.holdsLeft > 0 && x.tie.IntN(100) < x.holdPct
+	parkedBefore := x.lc.parked.Load()
+	if hold {
+		x.lc.hold.Store(true)
+	}
 	if !x.clk.FireNext(x.at(x.nowU)) {
+		x.lc.hold.Store(false)
 		x.inconcl = "no base timer was due although one was announced"
 		return
 	}
 	x.logf("base timer fires (pending %d)", pendingBefore)
-	if !x.wait("the re-arm loop to register its next base timer or finish", func() bool { return x.relevantCreated() > before || x.isDone() }) {
+	if !x.wait("the re-arm loop to register its next base timer or finish", func() bool {
+		return x.lc.parked.Load() > parkedBefore || x.relevantCreated() > before || x.isDone()
+	}) {
 		return
 	}
+	if x.lc.parked.Load() > parkedBefore {
+		x.holdsLeft--
+		x.held = &heldExpiry{dueAt: x.nowU, dueRan: x.ran(), countAtDue: x.count, suspendedAtDue: x.count > 0}
+		x.holdBudget = x.tie.IntN(4)
+		x.logf("expiry due now is NOT delivered yet (up to %d events first)", x.holdBudget)
+		return
+	}
+	x.lc.hold.Store(false) // the timer that fired was not a holdable one
+	if x.held != nil {
+		// Some other timer (the wall cap) fired while an expiry is held.
+		if x.isDone() {
+			x.lastDueAt, x.lastHeld = x.nowU, false
+			x.onFinish("base timer")
+		}
+		return
+	}
+	x.afterDelivery(&heldExpiry{dueAt: x.nowU, dueRan: x.ran(), countAtDue: x.count, suspendedAtDue: x.count > 0}, false)
+}
+
+// deliverHeld hands the deferred expiry (carrying its due time) to the
+// re-arm loop.
+func (x *run) deliverHeld() {
+	h := x.held
+	before := x.relevantCreated()
+	x.logf("expiry that was due at t=%d is delivered", h.dueAt)
+	x.lc.deliver()
+	if !x.wait("the re-arm loop to handle the late expiry", func() bool { return x.relevantCreated() > before || x.isDone() }) {
+		return
+	}
+	x.held = nil
+	switch {
+	case h.resumedToZero && x.count == 0:
+		x.situation("expiry-delivered-after-complete-suspension")
+	case x.count > 0:
+		x.situation("expiry-delivered-late-while-suspended")
+	case x.nowU > h.dueAt:
+		x.situation("expiry-delivered-late-while-unsuspended")
+	}
+	x.afterDelivery(h, true)
+}
+
+// afterDelivery judges what the re-arm loop did with an expiry that was due
+// at h.dueAt and reached it now. The loop evaluates the unsuspended time for
+// the instant the timer carries, so its estimate lies between the true value
+// at the due instant and the true value now.
+func (x *run) afterDelivery(h *heldExpiry, late bool) {
+	T, th := int64(x.c.Timeout), int64(x.c.Threshold)
+	ranL := x.ran()
+	x.slack += ranL - h.dueRan
+	x.lastDueRan, x.lastDueAt, x.lastHeld = h.dueRan, h.dueAt, late
 	if x.isDone() {
 		x.onFinish("base timer")
 		return
 	}
-	if suspended {
+	if x.finished || x.stopped {
+		return
+	}
+	if h.dueRan > T-th {
+		x.violation("expiry-within-threshold-not-acted-upon", fmt.Sprintf("when the base timer fell due (t=%d) the command had run %d of %d units unsuspended (threshold %d), yet the context/timer was re-armed instead of firing", h.dueAt, h.dueRan, T, th))
+		return
+	}
+	if d := x.lastD.Load(); d > T-h.dueRan || d < T-ranL {
+		x.violation("re-armed-for-wrong-duration", fmt.Sprintf("after the expiry due at t=%d (delivered at t=%d) the base timer was re-armed for %d units; the unsuspended budget left was %d units at the due instant and %d units at delivery", h.dueAt, x.nowU, d, T-h.dueRan, T-ranL))
+		return
+	}
+	if h.suspendedAtDue {
 		x.situation("suspension-spanning-rearm")
 	}
-	if int64(x.c.Timeout)-x.ran() == int64(x.c.Threshold) {
+	if T-ranL == th {
 		x.situation("remaining-equals-threshold-rearmed")
 	}
 }
@@ -765,13 +887,27 @@ func (x *run) doCancel(kind string) {
 // onFinish judges the instant at which the object under test fired.
 func (x *run) onFinish(cause string) {
 	x.finished = true
+	if x.held != nil {
+		// Decided while an expiry was still undelivered (cancellation,
+		// wall cap): the late expiry no longer matters.
+		x.held = nil
+		x.lc.deliver()
+	}
 	T, th := int64(x.c.Timeout), int64(x.c.Threshold)
 	capAt := x.startAt + x.c.Timeout + x.c.MaxSusp
 	ran := x.ran()
 	x.logf("object done (%s): ran=%d", cause, ran)
-	byUnsuspended := ran > T-th && ran <= T
+	byUnsuspended := ran > T-th && ran <= T+x.slack
 	byCap := x.nowU == capAt
 	harnessCancelled := x.cancelledAt == x.nowU
+	// An expiry delivered late carries its due time: the loop's figure may
+	// be the unsuspended time of any instant between due and delivery.
+	reportedOK := func(val time.Duration) bool {
+		if x.lastHeld && cause == "base timer" {
+			return val >= time.Duration(x.lastDueRan)*unit && val <= time.Duration(ran)*unit
+		}
+		return val == time.Duration(ran)*unit
+	}
 	switch x.c.Kind {
 	case "context":
 		err := x.ctx.Err()
@@ -787,14 +923,14 @@ func (x *run) onFinish(cause string) {
 		default:
 			x.violation("done-context-without-error", fmt.Sprintf("Done() is closed but Err()=%v", err))
 		}
-		if val != time.Duration(ran)*unit {
-			x.violation("reported-unsuspended-duration-wrong cause="+causeClass(err), fmt.Sprintf("UnsuspendedDurationKey=%v, the command ran %v unsuspended (start %d, now %d)", val, time.Duration(ran)*unit, x.startAt, x.nowU))
+		if !reportedOK(val) {
+			x.violation("reported-unsuspended-duration-wrong cause="+causeClass(err), fmt.Sprintf("UnsuspendedDurationKey=%v, the command ran %v unsuspended (start %d, now %d; %v at the due instant t=%d of the last expiry)", val, time.Duration(ran)*unit, x.startAt, x.nowU, time.Duration(x.lastDueRan)*unit, x.lastDueAt))
 		}
 		x.wait("base timers of the finished context to be stopped", func() bool { return x.relevantPending() == 0 })
 	case "timer":
 		v := <-x.timerCh
-		if !v.Equal(x.at(x.nowU)) {
-			x.violation("timer-delivered-wrong-time", fmt.Sprintf("delivered %v at %v", v, x.at(x.nowU)))
+		if !v.Equal(x.at(x.lastDueAt)) {
+			x.violation("timer-delivered-wrong-time", fmt.Sprintf("delivered %v, the base timer that made it fire was due at %v", v, x.at(x.lastDueAt)))
 		}
 		x.judgeDeadline(byUnsuspended, byCap, ran, capAt)
 		if x.timer.Stop() {
@@ -1091,7 +1227,9 @@ func (x *run) finishExecutor(cause string) {
 	case resp = <-x.exec.response:
 		x.exec.returned = true
 	case <-time.After(40 * time.Second):
-		x.inconcl = "Execute did not return after its run context ended"
+		buf := make([]byte, 1<<20)
+		buf = buf[:runtime.Stack(buf, true)]
+		x.inconcl = "Execute did not return after its run context ended; history: " + strings.Join(x.hist, " | ") + "\n" + string(buf)
 		return
 	}
 	code := codes.Code(resp.GetStatus().GetCode())
@@ -1105,7 +1243,7 @@ func (x *run) finishExecutor(cause string) {
 			x.violation("timeout-not-reported-as-deadline-exceeded", fmt.Sprintf("run context ended by timeout, response status is %v %q", code, resp.GetStatus().GetMessage()))
 		}
 		x.situation("executor-deadline-exceeded")
-		x.judgeDeadline(ran > T-th && ran <= T, x.nowU == capAt, ran, capAt)
+		x.judgeDeadline(ran > T-th && ran <= T+x.slack, x.nowU == capAt, ran, capAt)
 	case "cancel":
 		if code != codes.OK || resp.GetResult().GetExitCode() != 0 {
 			x.violation("in-time-command-not-reported-ok", fmt.Sprintf("command finished after %d of %d units, response status is %v %q", ran, T, code, resp.GetStatus().GetMessage()))
@@ -1116,7 +1254,11 @@ func (x *run) finishExecutor(cause string) {
 			x.violation("cancelled-action-reported-otherwise", fmt.Sprintf("action cancelled by its caller, response status is %v %q", code, resp.GetStatus().GetMessage()))
 		}
 	}
-	if ved == nil || ved.AsDuration() != time.Duration(ran)*unit {
+	vedOK := ved != nil && ved.AsDuration() == time.Duration(ran)*unit
+	if ved != nil && cause == "deadline" && x.lastHeld {
+		vedOK = ved.AsDuration() >= time.Duration(x.lastDueRan)*unit && ved.AsDuration() <= time.Duration(ran)*unit
+	}
+	if !vedOK {
 		x.violation("virtual-execution-duration-wrong cause="+cause, fmt.Sprintf("virtual_execution_duration=%v, the command ran %v unsuspended", ved.AsDuration(), time.Duration(ran)*unit))
 	}
 }
